@@ -529,7 +529,7 @@ func c2pos(c *Config, p token.Pos) string { return c.pos(p) }
 func init() {
 	register(&Rule{ID: "C08.guard", Floor: 150, Also: []string{"C06"},
 		// C06: a walk or an operation that reads an entry map outside the directory's lock sees states no sequential order has
-		AlsoOnly: map[string][]string{"C06": {".children", ".nodes"}}, AlsoFloor: map[string]int{"C06": 20},
+		AlsoOnly: map[string][]string{"C06": {".children", ".nodes", "memfs.baseNode.mode", "memfs.baseNode.uid", "memfs.baseNode.gid"}}, AlsoFloor: map[string]int{"C06": 20},
 		Text: "guarded-by: in every struct of memfs/orefafs that carries an RWMutex, every field that is ever written on a shared (non-fresh) object is read only with that object's lock held (R or W) and written only with it held in W mode — in the accessing function, or, for unexported helpers, at every call site (requirement summaries propagated through the call graph); fields written only on freshly allocated objects are immutable; fields accessed through sync/atomic are exempt",
 		Run:  func(rc *RuleCtx) { guardRule(rc, map[string]bool{"memfs": true, "orefafs": true}) }})
 	register(&Rule{ID: "C15.guard", Floor: 12,
